@@ -96,8 +96,17 @@ pub fn drive_c20(h: &mut Hist) -> RunResult2 {
                 if !pairs_requested.contains(&pair) {
                     pairs_requested.push(pair);
                 }
-                let waiting = sim.chance(3, 4);
-                let actor = if waiting { h.op_send(pair) } else { h.op_try_send(pair) };
+                // kinds: path_wait (holds the manager), cached_path (never waits), a wait on the handle alone
+                let kind = sim.draw(8);
+                let waiting = kind < 6;
+                let actor = match kind {
+                    0..=4 => h.op_send(pair),
+                    5 => {
+                        sim.probe("handle-waiter");
+                        h.op_handle_wait(pair)
+                    }
+                    _ => h.op_try_send(pair),
+                };
                 // removal requests that are *over* (their actor finished) when the caller is created
                 let all_over = stops.iter().all(|a| sim.is_finished(*a));
                 callers.push(Caller { actor, pair, cancelled: false, waiting, removals_before: if all_over { removal_events } else { usize::MAX }, caller_no: h.callers - 1 });
@@ -161,6 +170,55 @@ pub fn drive_c20(h: &mut Hist) -> RunResult2 {
         return Err(("panic".into(), format!("actor {name}#{id}: {msg}")));
     }
     if !sim.runnable().is_empty() {
+        // A worker that takes step after step at one instant never suspends. A caller that is blocked although no lookup
+        // for its pair is outstanding is then never released.
+        let r = sim.runnable();
+        if r.iter().all(|a| sim.actor_name(*a) == "path-set") {
+            for c in &callers {
+                if !c.cancelled && !sim.is_finished(c.actor) && !h.fetch.lock().unwrap().outstanding_for(c.pair) {
+                    return Err((
+                        "C20/lost-wakeup".into(),
+                        format!("caller actor#{} is blocked, no lookup for {}->{} is outstanding and the only runnable actor, worker actor#{}, keeps running at a fixed instant without releasing it (at {})", c.actor, c.pair.0, c.pair.1, r[0], sim.actor_at(r[0])),
+                    ));
+                }
+            }
+        }
+        if r.iter().all(|a| sim.actor_name(*a) == "path-set") {
+            // a spinning worker with nobody waiting on it: what C06 judges (re-attempts), not C20. The run cannot be wound
+            // down; it is abandoned and counted.
+            sim.probe("run-abandoned-worker-spins");
+            // Before abandoning: does a caller that arrives now, after every cached path has expired, get released?
+            if !dropped_mgr && h.mgr.is_some() {
+                sim.set_now(sim.now_ns() + 2 * 86_400 * 1_000_000_000);
+                sim.log("clock +2d (worker spins; late caller probe)".into());
+                for _ in 0..64 {
+                    let r = sim.runnable();
+                    if r.is_empty() {
+                        break;
+                    }
+                    sim.resume(r[0]);
+                }
+                for pair in pairs_requested.clone() {
+                    let actor = h.op_send(pair);
+                    for _ in 0..400 {
+                        let r = sim.runnable();
+                        if r.is_empty() || sim.is_finished(actor) {
+                            break;
+                        }
+                        let k = if r.len() == 1 { 0 } else { sim.idx(r.len()) };
+                        sim.resume(r[k]);
+                    }
+                    let r = sim.runnable();
+                    if !sim.is_finished(actor) && !r.contains(&actor) && !h.fetch.lock().unwrap().outstanding_for(pair) && r.iter().all(|a| sim.actor_name(*a) == "path-set") {
+                        return Err((
+                            "C20/lost-wakeup".into(),
+                            format!("caller actor#{actor} is blocked, no lookup for {}->{} is outstanding and the only runnable actor is a worker that keeps running at a fixed instant without starting one: nothing will release the caller", pair.0, pair.1),
+                        ));
+                    }
+                }
+            }
+            return Ok(());
+        }
         return Err(("harness/step-budget".into(), "actors still runnable after the wind-down budget".into()));
     }
     check_outcomes(h, &mut seen_handouts, removal_events == 0 && !dropped_mgr, &callers, removal_events, dropped_mgr)?;
